@@ -121,22 +121,23 @@ Fixpoint close_m (a b : list (list Q)) : bool :=
 Inductive bcase :=
 | BB (exact : bool) (k range : nat) (lo up pr : list float) (grid : list (list float))
      (pts : list (list float)) (losses : list float) (order : list nat) (choices : list row_choice)
-     (raised : bool) (raw out : list (list float)).
+     (raised : bool) (raw out : list (list float))
+     (pts' : list (list float)) (losses' : list float).       (* the caller's arrays when sample_batch returned *)
 
 Definition check_bcase (c : bcase) : bool :=
   match c with
-  | BB exact k range lo up pr grid pts losses order choices raised raw out =>
+  | BB exact k range lo up pr grid pts losses order choices raised raw out pts' losses' =>
       let sp := mk_space (qs lo) (qs up) (qs pr) (qss grid) in
       finite_l lo && finite_l up && finite_l pr && finite_m grid && finite_m pts && no_nan_l losses &&
-      finite_m raw && finite_m out &&
+      finite_m raw && finite_m out && finite_m pts' && no_nan_l losses' &&
       match sample_batch Q (fun _ => order) k sp (qss pts, ls losses) choices with
-      | RaiseValueError => raised
+      | RaiseValueError => raised && hist_eqb (qss pts, ls losses) (qss pts', ls losses')
       | Ok (mout, h', tr) =>
           negb raised
           && is_argsortQ (ls losses) order
           && Nat.eqb (length choices) k
           && forallb (choice_okb k sp range) choices
-          && qmat_eqb (fst h') (qss pts) && qlist_eqb (snd h') (ls losses)
+          && hist_eqb h' (qss pts', ls losses')
           && (if exact then qmat_eqb (b_raw tr) (qss raw) && qmat_eqb mout (qss out)
               else close_m (b_raw tr) (qss raw) && mat_ok true (qss grid) (qss raw) (qss out))
       end
